@@ -72,8 +72,85 @@ fn one(internal_executor: bool) -> Result<(), String> {
     Err("timed out (hang)".into())
 }
 
+/// A send whose future is dropped after a partial write (the peer is not reading, the socket buffer is
+/// full) must not leave half a message on the socket: the next message has to arrive whole, after the
+/// first one.  Real socket, real async-io reactor, internal executor thread.
+fn cancelled_send() -> Result<(), String> {
+    use std::io::{Read, Write};
+    let (a, mut b) = UnixStream::pair().map_err(|e| e.to_string())?;
+    let guid = Guid::generate();
+    let (len_tx, len_rx) = std::sync::mpsc::channel::<(usize, Vec<u8>)>();
+    // raw peer: client handshake by hand, then a pause, then read two frames
+    let peer = std::thread::spawn(move || -> Result<(), String> {
+        let uid = unsafe { libc::getuid() }.to_string();
+        let hex: String = uid.bytes().map(|c| format!("{c:02x}")).collect();
+        b.write_all(format!("\0AUTH EXTERNAL {hex}\r\nBEGIN\r\n").as_bytes()).map_err(|e| e.to_string())?;
+        let mut line = vec![];
+        let mut one = [0u8; 1];
+        while !line.ends_with(b"\r\n") {
+            b.read_exact(&mut one).map_err(|e| e.to_string())?;
+            line.push(one[0]);
+        }
+        if !line.starts_with(b"OK ") {
+            return Err(format!("handshake: {:?}", String::from_utf8_lossy(&line)));
+        }
+        let (len1, msg2) = len_rx.recv_timeout(Duration::from_secs(20)).map_err(|e| e.to_string())?;
+        b.set_read_timeout(Some(Duration::from_secs(20))).ok();
+        let read_frame = |b: &mut UnixStream| -> Result<Vec<u8>, String> {
+            let mut h = [0u8; 16];
+            b.read_exact(&mut h).map_err(|e| format!("header: {e}"))?;
+            if h[0] != b'l' && h[0] != b'B' {
+                return Err(format!("frame does not start with an endianness byte: {:02x?}", &h));
+            }
+            let u = |x: &[u8]| if h[0] == b'l' { u32::from_le_bytes(x.try_into().unwrap()) } else { u32::from_be_bytes(x.try_into().unwrap()) } as usize;
+            let (body, fields) = (u(&h[4..8]), u(&h[12..16]));
+            let rest = (fields + 7) / 8 * 8 + body;
+            let mut v = h.to_vec();
+            v.resize(16 + rest, 0);
+            b.read_exact(&mut v[16..]).map_err(|e| format!("frame body: {e}"))?;
+            Ok(v)
+        };
+        let f1 = read_frame(&mut b)?;
+        if f1.len() != len1 {
+            return Err(format!("first frame has {} bytes, the message had {len1}", f1.len()));
+        }
+        let f2 = read_frame(&mut b)?;
+        if f2 != msg2 {
+            return Err("second frame differs from the second message".into());
+        }
+        Ok(())
+    });
+    let r: Result<(), String> = zbus::block_on(async move {
+        let conn = Builder::unix_stream(a).server(guid).map_err(|e| e.to_string())?.p2p().build().await.map_err(|e| e.to_string())?;
+        let big = zbus::Message::signal("/r", "org.real.I", "Big").map_err(|e| e.to_string())?.build(&vec![7u8; 4 << 20]).map_err(|e| e.to_string())?;
+        let small = zbus::Message::signal("/r", "org.real.I", "Small").map_err(|e| e.to_string())?.build(&"after").map_err(|e| e.to_string())?;
+        // the peer is not reading: this send gets stuck after filling the socket buffer and is then dropped
+        let completed = futures_lite::future::or(async { conn.send(&big).await.map(|_| true) }, async {
+            async_io_sleep(300).await;
+            Ok(false)
+        })
+        .await
+        .map_err(|e| e.to_string())?;
+        if completed {
+            return Err("the big send completed although nobody was reading (test set-up)".into());
+        }
+        len_tx.send((big.data().len(), small.data().to_vec())).map_err(|e| e.to_string())?;
+        conn.send(&small).await.map_err(|e| e.to_string())?;
+        Ok(())
+    });
+    r?;
+    peer.join().map_err(|_| "peer panicked".to_string())?
+}
+
 fn main() {
     let mut bad = 0;
+    for round in 0..5 {
+        if let Err(e) = cancelled_send() {
+            println!("cancelled_send round {round}: {e}");
+            bad += 1;
+            break;
+        }
+    }
     for ie in [true, false] {
         for round in 0..20 {
             if let Err(e) = one(ie) {
